@@ -140,6 +140,51 @@ def case_entry_points(ctx, s: Subject, ragged=False):
     seqd = [None if r is None else {nm: gen.flat_array(c, dict(map(tuple, ty))[nm]) for nm, c in r} for r in rows]
     judge("entry.from_sequence_dicts", call_real(lambda: colres(
         NestedExtensionArray.from_sequence(seqd, dtype=NestedDtype(struct.type)))), inp)
+    # 4b. Arrow data handed to pandas with a types mapper that names the nested dtype (`NestedDtype.__from_arrow__`),
+    #     as a table column, as a chunked array whose later chunk holds the data, and through pandas' own parquet reader
+    mapper = (lambda t: NestedDtype(t) if pa.types.is_struct(t) else None)
+    judge("entry.table_types_mapper", call_real(lambda: colres(pa.table({"nest": struct}).to_pandas(types_mapper=mapper)["nest"].array)), inp)
+    judge("entry.chunked_types_mapper", call_real(lambda: colres(
+        pa.chunked_array([struct.slice(0, 0), struct], type=struct.type).to_pandas(types_mapper=mapper).array)), inp)
+
+    def through_pandas_parquet():
+        import pyarrow.parquet as pq
+        buf = io.BytesIO()
+        t = pa.Table.from_pandas(pd.DataFrame({"nest": pd.Series(struct, dtype=pd.ArrowDtype(struct.type))}))
+        # pandas metadata that announce the nested dtype for that column (what a file written from a nested column carries)
+        import json as _json
+        meta = _json.loads(t.schema.metadata[b"pandas"])
+        for c in meta["columns"]:
+            if c["name"] == "nest":
+                c["numpy_type"] = str(NestedDtype(struct.type))
+        t = t.replace_schema_metadata({b"pandas": _json.dumps(meta).encode()})
+        pq.write_table(t, buf)
+        buf.seek(0)
+        r = pd.read_parquet(buf)["nest"]
+        assert isinstance(r.dtype, NestedDtype), f"pandas restored {r.dtype}"
+        return colres(r.array)
+    judge("entry.pandas_read_parquet", call_real(through_pandas_parquet), inp)
+    # 4c. a sequence of DataFrames where a LATER frame lacks a column the first one (or the dtype) announces:
+    #     pyarrow would fill the absent field with a null list next to the records of the other fields
+    if not is_ragged and len(ty) >= 2 and sum(1 for r in rows if r) >= 1:
+        cand = [i for i, r in enumerate(rows) if r is not None and len(r[0][1]) > 0]
+        if cand:
+            j = rng.choice(cand)
+            frames = [df_of_row(r, ty) for r in rows]
+            full_first = [df_of_row([[nm, [gen.rand_cell(rng, t, p_null=0)]] for nm, t in ty], ty)] + frames
+            jj = j + 1
+            full_first[jj] = full_first[jj].drop(columns=[ty[-1][0]])
+            for opn, fn in (("pack_seq", lambda: pack_seq(full_first)), ("pack", lambda: pack(full_first)),
+                            ("pack_seq_dtype", lambda: pack_seq(full_first, dtype=NestedDtype(struct.type))),
+                            ("add_nested", lambda: NestedFrame({"k": np.arange(len(full_first))}).add_nested(full_first, "q")["q"])):
+                def run(fn=fn):
+                    ser = fn()
+                    return {"row_lens": [None if r is None else sorted({(-1 if c is None else len(c)) for _, c in r})
+                                         for r in export.rows_view(ser.array)]}
+                real = call_real(run)
+                ok = "err" in real or all(r is None or len(r) <= 1 for r in real["ok"]["row_lens"])
+                ctx.case(f"entry.frames_missing_column.{opn}", {**s.desc(), "frame_without": jj, "column": ty[-1][0]}, real, None, None,
+                         hyp=s.hyp, features=feats + ("frames_missing_column", opn), spec_ok=ok, nontrivial=True)
     # 5. parquet file with that struct column, read by the library
     def through_parquet():
         import pyarrow.parquet as pq
